@@ -13,6 +13,7 @@ def guards_and_block(run, repo, rel, name, signed=True, loop_form=True):
     f = repo.func(rel, name)
     if loop_form:
         k = rowclass.check_loop_guards(run, f, signed=signed)
+        rowclass.check_flag_resets(run, f)
     else:
         rowclass.check_vector_guards(run, f)
         k = rowclass.Kernel(f)
